@@ -407,6 +407,14 @@ def raw_value_typestate(ctx):
                             need = {'iteration': 'iter', 'tuple unpacking': 'iter', 'unpacking': 'iter'}.get(detail, None)
                             if detail.startswith('iteration') or need == 'iter':
                                 ok = level in OK_FOR['iter'] or (level == 'DICT')
+                                if not ok and {'str', 'dict'} <= set(state[1]):
+                                    # text and mappings are excluded: iterating anything else that is not a sequence raises TypeError,
+                                    # nothing is reinterpreted silently (the length test that would make it SIZED lies on another path)
+                                    if _contained(m, f, anchor, [TypeError]):
+                                        ctx.ok(construct, anchor, 'text / mapping excluded, TypeError of a non-iterable is contained', f)
+                                    else:
+                                        ctx.undecided(construct, anchor, 'text / mapping excluded; the length test is not on every path to this iteration', f)
+                                    continue
                             elif detail in ('dict()', 'set()', 'list()', 'tuple()', 'sorted()', 'frozenset()'):
                                 ok = level in ('SEQ', 'DICT', 'VALID') if detail != 'dict()' else level in ('DICT', 'VALID')
                             else:
@@ -484,14 +492,12 @@ def no_truncating_zip(ctx):
                 n += 1
                 ctx.analysed(f)
                 ops = [src(a) for a in c.args]
-                tied = False
-                for a in ancestors(c):
-                    if isinstance(a, ast.If):
-                        for sub in ast.walk(a.test):
-                            if isinstance(sub, ast.Compare):
-                                for l, op, r in compare_ops(sub):
-                                    if op == '==' and {l, r} == {f'len({ops[0]})', f'len({ops[1]})'}:
-                                        tied = True
+                want = {f'len({ops[0]})', f'len({ops[1]})'}
+
+                def equal_len(atom, truth, want=want):
+                    return any(op in ('==', '!=') and {l, r} == want and (op == '==') == truth for l, op, r in compare_ops(atom))
+                cfgz = ma.cfg
+                tied = bool(set(cfgz.node_of(c))) and set(cfgz.node_of(c)) <= sides_with_fact(cfgz, equal_len)
                 ctx.check(tied, f'{f.qualname}:zip({", ".join(ops)}) is length-tied', c, 'guarded by len(a) == len(b)',
                           f'`{src(c)}` stops at the shorter operand: validating [1, 2, 3] while the parameter currently holds one element '
                           'returns (1,) - the offered value is silently cut to the length of the previous value', f)
@@ -514,10 +520,13 @@ def integrality(ctx):
         ints = [c for c in calls_in(f.node) if dotted(c.func) == 'int' and not _in_lazy_branch(c)]
         tests = []
         for n in cfg.nodes:
-            if n.kind == 'test' and any(isinstance(x, ast.Raise) for x in ast.walk(getattr(n.ast, 'cfg_owner', ast.Pass()))):
-                s = src(n.ast)
-                if ('round(' in s or 'int(' in s) and ('!=' in s or '==' in s):
-                    tests.append(n.id)
+            if n.kind != 'test':
+                continue
+            for l, op, r in compare_ops(n.ast):
+                if op in ('==', '!=') and any(x.startswith(('round(', 'int(')) for x in (l, r)):
+                    # the side on which coerced and uncoerced value DIFFER never completes normally
+                    if side_never_completes(cfg, n.id, 'T' if op == '!=' else 'F'):
+                        tests.append(n.id)
         for c in ints:
             ok = bool(tests) and cfg.all_paths_pass(cfg.node_of(c), [cfg.exit], tests, exc=False)
             ctx.check(ok, f'{f.qualname}:integrality test after int()', c, '`if round(fvalue) != fvalue: raise` on every path to the return',
@@ -586,7 +595,7 @@ def container_recursion(ctx):
             ctx.bad(f'{ci.qualname}:check_type exists', ci.node, 'container without check_type')
             continue
         st = ct.exit_state()
-        good = st is not None and st[0] in ('SEQ', 'DICT', 'VALID')
+        good = st is not None and (st[0] in ('SEQ', 'DICT', 'VALID') or {'str', 'dict'} <= set(st[1]))   # text and mappings excluded on every path
         ctx.check(good, f'{ct.f.qualname}:establishes the container kind', ct.f.node, f'value is {st[0] if st else None} after check_type',
                   f'after check_type the offered value is only known to be {st[0] if st else "RAW"} (excluded kinds: {sorted(st[1]) if st else []}): '
                   'a len() test alone also admits strings, bytes and dicts - "abc" becomes (\'a\', \'b\', \'c\'), a dict becomes the tuple of its keys', ct.f)
@@ -796,7 +805,7 @@ def int_of_the_value_itself(ctx):
         ctx.undecided(f'{f.qualname}:int() of the value itself', f.node, 'no int() conversion found', f)
 
 
-@rule('C01.R7b', min_instances=2)
+@rule('C01.R7b', min_instances=1)
 def limits_not_disabled_by_truthiness(ctx):
     """a limit comparison must not be conjoined with a truthiness test of the limit itself (a limit of 0 is a limit)"""
     m = ctx.m
@@ -818,12 +827,40 @@ def limits_not_disabled_by_truthiness(ctx):
                         ctx.check(not bare, f'{f.qualname}:limit test `{src(b)[:60]}` not disabled by truthiness', n, 'no truthiness conjunct',
                                   f'`{src(b)}`: the comparison is skipped when `{src(bare[0]) if bare else ""}` is 0 - a type whose limit is 0 '
                                   '(e.g. an array with maxlen == 0) accepts values of any size', f)
+    ctx.ok('limit comparisons are not conjoined with the truth value of the limit (scan of all validation methods)', None,
+           'nested forms are covered by the cross-cutting C01.R7c')
+
+
+def _eval_for_nan(test, names):
+    """truth value of a condition when the variables in `names` hold NaN: every ordering / equality comparison with NaN is
+    false (`!=` is true); True / False / None (not determined by NaN-ness)"""
+    if isinstance(test, ast.UnaryOp) and isinstance(test.op, ast.Not):
+        v = _eval_for_nan(test.operand, names)
+        return None if v is None else (not v)
+    if isinstance(test, ast.BoolOp):
+        vals = [_eval_for_nan(v, names) for v in test.values]
+        if isinstance(test.op, ast.And):
+            return False if any(v is False for v in vals) else (True if all(v is True for v in vals) else None)
+        return True if any(v is True for v in vals) else (False if all(v is False for v in vals) else None)
+    if isinstance(test, ast.Compare):
+        left = test.left
+        res = None
+        for op, right in zip(test.ops, test.comparators):
+            if any(isinstance(x, ast.Name) and x.id in names for x in (left, right)):
+                if isinstance(op, (ast.Lt, ast.LtE, ast.Gt, ast.GtE, ast.Eq)):
+                    return False          # one false link makes the chain false
+                if isinstance(op, ast.NotEq):
+                    res = True if res is None else res
+            left = right
+        return res
+    return None
 
 
 @rule('C01.R9', min_instances=3)
 def range_test_is_nan_safe(ctx):
-    """validate() returns a number only on the TRUE branch of an accepting comparison lo <= value <= hi: every comparison
-    with NaN is false, so the rejecting form `if value < lo or value > hi: raise` lets NaN through"""
+    """validate() of the numeric types can not return for a NaN: the method is walked with the offered value assumed to be NaN
+    (every comparison with it is false, through `not`, `and`, `or` and either branch order) - no `return <value>` may be
+    reachable.  The accepting form `if lo <= v <= hi: return` is safe, the rejecting form `if v < lo or v > hi: raise` is not"""
     m = ctx.m
     for cname in ('FloatRange', 'IntRange', 'ScaledInteger'):
         f = m.method(f'{DT}.{cname}', 'validate', inherited=False)
@@ -833,36 +870,29 @@ def range_test_is_nan_safe(ctx):
         rets = [n for n in body_walk(f.node) if isinstance(n, ast.Return) and n.value is not None]
         if not rets:
             raise AnchorMissing(f'no return in {cname}.validate')
-        # accepting tests: a chained / conjunctive comparison that bounds the value from both sides
-        acc = []
-        for t in cfg.nodes:
-            if t.kind != 'test':
+        names = {p} | {x.targets[0].id for x in body_walk(f.node) if isinstance(x, ast.Assign) and isinstance(x.targets[0], ast.Name)
+                       and any(isinstance(y, ast.Name) and y.id == p for y in ast.walk(x.value)) and not isinstance(x.value, ast.BoolOp)
+                       and not any(isinstance(y, ast.Compare) for y in ast.walk(x.value))}
+        seen, stack = set(), [cfg.entry]
+        while stack:
+            n = stack.pop()
+            if n in seen:
                 continue
-            ops = [x for sub in ast.walk(t.ast) if isinstance(sub, ast.Compare) for x in compare_ops(sub)]
-            lower = any(op in ('<', '<=') and (r == p or r == 'result') for l, op, r in ops)
-            upper = any(op in ('<', '<=') and (l == p or l == 'result') for l, op, r in ops)
-            # compare_ops() normalises `not (lo <= v <= hi)` to the rejecting form, so look at the raw comparison for the polarity
-            tt, neg = t.ast, False
-            while isinstance(tt, ast.UnaryOp) and isinstance(tt.op, ast.Not):
-                tt, neg = tt.operand, not neg
-            raw = [x for sub in ast.walk(tt) if isinstance(sub, ast.Compare) for x in compare_ops(sub)]
-            lower = any(op in ('<', '<=') and (r == p or r == 'result') for l, op, r in raw)
-            upper = any(op in ('<', '<=') and (l == p or l == 'result') for l, op, r in raw)
-            disj = isinstance(tt, ast.BoolOp) and isinstance(tt.op, ast.Or)
-            if lower and upper and not disj:
-                acc.append((t.id, 'F' if neg else 'T'))
+            seen.add(n)
+            node = cfg.nodes[n]
+            known = _eval_for_nan(node.ast, names) if node.kind == 'test' else None
+            for b_, lab in cfg.succ[n]:
+                if known is True and lab == 'F':
+                    continue
+                if known is False and lab == 'T':
+                    continue
+                stack.append(b_)
         for r in rets:
-            ok = False
-            for t, lab in acc:
-                on_acc = cfg.reach([t], labels={lab}, avoid=[t])
-                on_rej = cfg.reach([t], labels={'F' if lab == 'T' else 'T'}, avoid=[t])
-                ids = set(cfg.ids(r))
-                if ids & on_acc and not (ids & on_rej):
-                    ok = True
-            ctx.check(ok, f'{f.qualname}:value returned only on the accepting branch', r,
-                      'the return is reachable only through the true branch of `lo <= value <= hi`',
-                      f'`{src(r)}` is reached when the range comparisons are false: for NaN (the JSON token NaN is accepted by the decoder) every '
-                      'comparison is false, so NaN is returned as a valid value of the range', f)
+            reached = bool(set(cfg.ids(r)) & seen)
+            ctx.check(not reached, f'{f.qualname}:value returned only on the accepting branch', r,
+                      'with NaN offered, no path reaches this return',
+                      f'`{src(r)}` is reached when every comparison with the value is false: for NaN (the JSON token NaN is accepted by the decoder) '
+                      'the range test does not refuse, so NaN is returned as a valid value of the range', f)
 
 
 @rule('C01.R7c', min_instances=1)
@@ -1118,14 +1148,20 @@ def structural_refusals(ctx):
     f, cfg, p = ma.f, ma.cfg, ma.param
     ctx.analysed(f)
     found = False
+    want = {f'len({p})', 'len(self.members)'}
     for t in cfg.nodes:
         if t.kind != 'test':
             continue
-        for l, op, r in compare_ops(t.ast):
-            if op in ('==', '!=') and {l, r} == {f'len({p})', 'len(self.members)'}:
-                found = True
-                ctx.check(_side_never_completes(cfg, t.id, 'T' if op == '!=' else 'F'), f'{f.qualname}:wrong arity is refused', t.ast,
-                          'the unequal side raises', f'`{src(t.ast)}`: a tuple with the wrong number of elements passes check_type (zip() then truncates silently)', f)
+        for truth, label in ((True, 'T'), (False, 'F')):
+            for atom, tv in facts_on_side(t.ast, truth):
+                exprs = [o for o in origins(atom, f.node)] if isinstance(atom, ast.Name) else [atom]
+                for e in exprs:
+                    for l, op, r in compare_ops(e):
+                        if op in ('==', '!=') and {l, r} == want and (op == '==') != tv:
+                            # on this side the lengths differ
+                            found = True
+                            ctx.check(_side_never_completes(cfg, t.id, label), f'{f.qualname}:wrong arity is refused', t.ast,
+                                      'the unequal side raises', f'`{src(t.ast)}`: a tuple with the wrong number of elements passes check_type (zip() then truncates silently)', f)
     if not found:
         ctx.bad(f'{f.qualname}:wrong arity is refused', f.node, f'no comparison of len({p}) with len(self.members): tuples of any arity pass check_type', f)
     # -- struct members
@@ -1154,7 +1190,12 @@ def structural_refusals(ctx):
             ctx.bad(key, f.node, f'the set difference for {what} struct members is not computed in check_type', f)
             continue
         tests = [t for t in cfg.nodes if t.kind == 'test' and any(isinstance(x, ast.Name) and x.id == name for x in ast.walk(t.ast))]
-        ok = bool(tests) and all(_side_never_completes(cfg, t.id, 'T') for t in tests)
+        ok = bool(tests)
+        for t in tests:
+            # the side on which the set (or an expression of it) is non-empty / truthy
+            sides = [label for truth, label in ((True, 'T'), (False, 'F')) for atom, tv in facts_on_side(t.ast, truth)
+                     if tv and any(isinstance(x, ast.Name) and x.id == name for x in ast.walk(atom))]
+            ok = ok and bool(sides) and all(_side_never_completes(cfg, t.id, lab) for lab in sides)
         ctx.check(ok, key, tests[0].ast if tests else f.node, f'`if {name}:` always raises',
                   f'a struct with {what} members passes check_type: ' + ('unknown keys are dropped silently' if what == 'superfluous' else
                                                                         'an incomplete struct is returned as valid'), f)
@@ -1186,8 +1227,8 @@ def structural_refusals(ctx):
         ctx.check(right_side and refuses, key, c, 'probed exactly when isUTF8 is false, the failure raises a bad-value error',
                   f'`{src(c)}`: ' + ('the ASCII probe does not run exactly on the `not self.isUTF8` side' if not right_side else
                                      'a failing probe does not end in a raise') + ': an ASCII-only type accepts non-ASCII text (or a UTF-8 type refuses it)', f)
-    nul = [t for t in cfg.nodes if t.kind == 'test' and any(op == 'in' and l in ("'\\x00'", "'\\0'") and r == p for l, op, r in compare_ops(t.ast))]
-    ctx.check(bool(nul) and all(_side_never_completes(cfg, t.id, 'T') for t in nul), f'{f.qualname}:embedded NUL is refused', nul[0].ast if nul else f.node,
+    nul = [(t, op) for t in cfg.nodes if t.kind == 'test' for l, op, r in compare_ops(t.ast) if op in ('in', 'notin') and l in ("'\\x00'", "'\\0'") and r == p]
+    ctx.check(bool(nul) and all(_side_never_completes(cfg, t.id, 'T' if op == 'in' else 'F') for t, op in nul), f'{f.qualname}:embedded NUL is refused', nul[0][0].ast if nul else f.node,
               "`'\\0' in value` always raises", 'a string with an embedded NUL character is accepted', f)
     # -- integral transport value of a scaled integer
     ci, res = _analyse_class(m, 'ScaledInteger')
